@@ -135,7 +135,7 @@ def bbc_jobs():
         inv = "i % 4 == 0 && i <= 4 * ell && " + " && ".join("acc1[%d] <= (i / 4) * %dul && acc2[%d] <= (i / 4) * %dul" % (j, lo, j, hi) for j in range(4))
         fn = "q120_vec_mat1col_product_baa_ref"
         J.append(Job(name="q120.baa." + fn, props=["C04", "C11", "C18"], shape="S1", sources=REF, harness="q120_bbc.c", entry="h_baa_ref",
-                     defines=dict(d, BAA_H=hb), enforce=[(fn, "baa_ref__c")], pre_unwindset=[fn + ".0:5", fn + ".2:5"],
+                     defines=dict(d, BAA_H=hb), enforce=[(fn, "baa_ref__c")], pre_unwindset=[fn + ".0:5", fn + ".2:5"], replay={"driver": "q120_prod", "fn": "baa"},
                      loops={fn: {"count": 1, "loops": [
                          {"id": 0, "assigns": "i, __CPROVER_object_whole(acc1), __CPROVER_object_whole(acc2)", "invariants": inv, "decreases": "4 * ell - i"}]}},
                      cbmc_flags=["--no-signed-overflow-check", "--unsigned-overflow-check"], functions=[fn], timeout=1200,
@@ -150,7 +150,7 @@ def bbc_jobs():
                                                               % (j, m32, j, 3 * m32, j, 3 * m32, j, m32) for j in range(4))
         fn = "q120_vec_mat1col_product_bbb_ref"
         J.append(Job(name="q120.bbb." + fn, props=["C04", "C11", "C18"], shape="S1", sources=REF, harness="q120_bbc.c", entry="h_bbb_ref",
-                     defines=dict(d, BBB_H=hb), enforce=[(fn, "bbb_ref__c")], pre_unwindset=[fn + ".0:5", fn + ".2:5"],
+                     defines=dict(d, BBB_H=hb), enforce=[(fn, "bbb_ref__c")], pre_unwindset=[fn + ".0:5", fn + ".2:5"], replay={"driver": "q120_prod", "fn": "bbb"},
                      loops={fn: {"count": 1, "loops": [
                          {"id": 0, "assigns": "i, __CPROVER_object_whole(s1), __CPROVER_object_whole(s2), __CPROVER_object_whole(s3), __CPROVER_object_whole(s4)",
                           "invariants": inv, "decreases": "4 * ell - i"}]}},
